@@ -2,7 +2,9 @@
 // KFPrediction / UKFPrediction and KFCorrection / UKFCorrection / SUKFCorrection.
 //
 //   gpfh n k m seed predKind corrKind alpha beta kappa sub exo <trans> <set> nsteps <step>*
-//     predKind 0 KF, 1 UKF(additive) ; corrKind 0 KF, 1 UKF(additive), 2 SUKF(sub-size `sub`)
+//     predKind 0 KF, 1 UKF(additive model), 2 UKF(generic StateModel overload)
+//     corrKind 0 KF, 1 UKF(additive), 2 SUKF(sub-size `sub`), 3 UKF(generic MeasurementModel overload), 4 same with online weights
+//     seed 1 selects the GPFCorrection constructor overload without a seed
 //     exo     = 1: an ExogenousModel u(x) = G x + g is attached to the wrapped prediction's state model
 //     <trans> = 0                   harness-defined density  c / (1 + |cur − A prev − b|²), A b c per step
 //             | 1 T qtilde          the shipped WhiteNoiseAcceleration (n = 2, 4, 6)
@@ -71,6 +73,46 @@ struct HExo : public ExogenousModel {
     void propagate(const Ref<const MatrixXd>& cur, Ref<MatrixXd> prop) override { prop = (s_->G * cur).colwise() + s_->g; }
     bool setProperty(const std::string&) override { return false; }
     VectorDescription getStateDescription() const override { return VectorDescription(s_->g.size()); }
+    std::shared_ptr<Script> s_;
+};
+
+// the same state equation as a *generic* (non-additive) StateModel: x' = F x + w with the noise as part
+// of the (augmented) input — selects the other constructor overload / branch of UKFPrediction
+struct HGenState : public StateModel {
+    explicit HGenState(std::shared_ptr<Script> s) : s_(s) {}
+    void propagate(const Ref<const MatrixXd>& cur, Ref<MatrixXd> prop) override { prop = s_->F * cur.topRows(s_->F.rows()); }
+    void motion(const Ref<const MatrixXd>& cur, Ref<MatrixXd> mot) override {
+        long n = s_->F.rows();
+        mot = s_->F * cur.topRows(n);
+        if (cur.rows() == 2 * n) mot += cur.bottomRows(n);
+    }
+    MatrixXd getNoiseCovarianceMatrix() override { return s_->Q; }
+    bool setProperty(const std::string&) override { return false; }
+    VectorDescription getInputDescription() override { return VectorDescription(s_->F.rows(), 0, s_->F.rows()); }
+    VectorDescription getStateDescription() override { return VectorDescription(s_->F.rows()); }
+    std::shared_ptr<Script> s_;
+};
+
+// the same sensor as a *generic* MeasurementModel: y = H x + v with the noise as part of the input
+struct HGenMeas : public MeasurementModel {
+    explicit HGenMeas(std::shared_ptr<Script> s) : s_(s) {}
+    std::pair<bool, MatrixXd> getNoiseCovarianceMatrix() const override { return std::make_pair(s_->meas_fail != 4, s_->R); }
+    bool freeze(const Data&) override { return true; }
+    std::pair<bool, Data> measure(const Data&) const override { MatrixXd y = s_->y; return std::make_pair(s_->meas_fail != 1, Data(y)); }
+    std::pair<bool, Data> predictedMeasure(const Ref<const MatrixXd>& x) const override {
+        if (s_->meas_fail == 2) return std::make_pair(false, Data());
+        long n = s_->H.cols(), m = s_->H.rows();
+        MatrixXd p = s_->H * x.topRows(n);
+        if (x.rows() == n + m) p += x.bottomRows(m);
+        return std::make_pair(true, Data(p));
+    }
+    std::pair<bool, Data> innovation(const Data& p, const Data& y) const override {
+        if (s_->meas_fail == 3) return std::make_pair(false, Data());
+        MatrixXd inn = -(any::any_cast<MatrixXd>(p).colwise() - any::any_cast<MatrixXd>(y).col(0));
+        return std::make_pair(true, Data(inn));
+    }
+    VectorDescription getInputDescription() const override { return VectorDescription(s_->H.cols(), 0, s_->R.rows()); }
+    VectorDescription getMeasurementDescription() const override { return VectorDescription(s_->H.rows()); }
     std::shared_ptr<Script> s_;
 };
 
@@ -157,6 +199,7 @@ static std::unique_ptr<GaussianPrediction> makePred(int kind, std::shared_ptr<Sc
     if (exo) sm->add_exogenous_model(std::unique_ptr<ExogenousModel>(new HExo(s)));
     if (kind == 0) return std::unique_ptr<GaussianPrediction>(new KFPrediction(std::unique_ptr<LinearStateModel>(std::move(sm))));
     if (kind == 1) return std::unique_ptr<GaussianPrediction>(new UKFPrediction(std::unique_ptr<AdditiveStateModel>(std::move(sm)), a, b, kp));
+    if (kind == 2) return std::unique_ptr<GaussianPrediction>(new UKFPrediction(std::unique_ptr<StateModel>(new HGenState(s)), a, b, kp));
     throw vh::BadArgs("predKind");
 }
 
@@ -164,6 +207,7 @@ static std::unique_ptr<GaussianCorrection> makeCorr(int kind, std::shared_ptr<Sc
     if (kind == 0) return std::unique_ptr<GaussianCorrection>(new KFCorrection(std::unique_ptr<LinearMeasurementModel>(new HMeas(s))));
     if (kind == 1) return std::unique_ptr<GaussianCorrection>(new UKFCorrection(std::unique_ptr<AdditiveMeasurementModel>(new HMeas(s)), a, b, kp));
     if (kind == 2) return std::unique_ptr<GaussianCorrection>(new SUKFCorrection(std::unique_ptr<AdditiveMeasurementModel>(new HMeas(s)), a, b, kp, sub, false));
+    if (kind == 3 || kind == 4) return std::unique_ptr<GaussianCorrection>(new UKFCorrection(std::unique_ptr<MeasurementModel>(new HGenMeas(s)), a, b, kp, kind == 4));
     throw vh::BadArgs("corrKind");
 }
 
@@ -249,7 +293,7 @@ static std::string gpfh(Toks& t) {
                 std::unique_ptr<GPFPrediction> moved(new GPFPrediction(std::move(*gpfp)));
                 gpfp = std::move(moved);
             } else if (hand == 2) {     // move-assign over a differently configured object
-                std::unique_ptr<GPFPrediction> other(new GPFPrediction(makePred(1 - predKind, decoy, false, 1.0, 2.0, 1.0)));
+                std::unique_ptr<GPFPrediction> other(new GPFPrediction(makePred(predKind == 0 ? 1 : 0, decoy, false, 1.0, 2.0, 1.0)));
                 *other = std::move(*gpfp);
                 gpfp = std::move(other);
             }
@@ -282,7 +326,10 @@ static std::string gpfh(Toks& t) {
                 std::unique_ptr<LikelihoodModel> lm;
                 if (lk == 2) lm.reset(new HGaussLik(scale, script)); else lm.reset(new HLik(script));
                 builtLikKind = (lk == 2) ? 2 : 0;
-                gpfc.reset(new GPFCorrection(std::move(lm), std::move(w), makeTrans(transKind, n, script, T, qt), seed));
+                if (seed == 1u)   // the constructor overload without a seed (documented default: 1)
+                    gpfc.reset(new GPFCorrection(std::move(lm), std::move(w), makeTrans(transKind, n, script, T, qt)));
+                else
+                    gpfc.reset(new GPFCorrection(std::move(lm), std::move(w), makeTrans(transKind, n, script, T, qt), seed));
                 directC = makeCorr(corrKind, script, alpha, beta, kappa, sub);
             } else if (((lk == 2) ? 2 : 0) != builtLikKind) throw vh::BadArgs("likKind-changed");
             if (mv == 2) {  // move-assign over a differently configured object (own likelihood model, own
